@@ -4,7 +4,7 @@
     hwapi.LowLevelHardwareInterfaces / constructed manifests and writes
     [coq/gen/Cases_C05_*.v] with the inputs AND the verdict the implementation
     returned; [check] re-runs the model. *)
-From CSS Require Import Lib.Base Lib.Cases Model.Verdicts.
+From CSS Require Import Lib.Base Lib.Cases Model.Verdicts Model.VerdictsLCP.
 
 Inductive fitchk : Type :=
 | KNoIBBOverlap | KNoACMOverlap | KCoversRV | KCoversFV | KCoversFIT | KACMBelow4G
@@ -44,6 +44,9 @@ Inductive case : Type :=
 | CAuxHash (blob : list Z) (r : verd)
 | CLcp1 (version hashalg ptype sinitmin polctrl maxsinit : Z) (hashzero : bool) (r : verd)
 | CLcp2 (preset version hashalg ptype hmask smask : Z) (r : verd)
+(* PSIndexHasValidLCP ([po] = false) / POIndexHasValidLCP on a platform: TPM version, the NV public
+   area of the index, the bytes stored in the index ([None]: cannot be read), PreSet.LCPHash *)
+| CLcpIdx (po : bool) (tpm : Z) (pub : nvst) (data : option (list Z)) (preset : Z) (r : verd)
 (* SINITACMcomplyTPMSpec: capabilities of the SINIT ACM, of a module stored behind it *)
 | CSinitTPM (caps1 : Z) (caps2 : option Z) (tpm : Z) (present : bool) (r : verd)
 (* Boot Guard / ME *)
@@ -120,6 +123,7 @@ Definition check (c : case) : bool :=
   | CAuxHash b r => verd_eqb r (aux_index_hash b)
   | CLcp1 ve h t s pc ms hz r => verd_eqb r (lcp_valid1 ve h t s pc ms hz)
   | CLcp2 pr ve h t hm sm r => verd_eqb r (lcp_valid2 pr ve h t hm sm)
+  | CLcpIdx po tpm pub data pr r => verd_eqb r (lcp_index po tpm pub data pr)
   | CSinitTPM c1 c2 t pr r => verd_eqb r (sinit_tpm_spec c1 c2 t pr)
   | CSaneME st v h m r => verd_eqb r (sane_me_raw st v h m)
   | CSaneMEAll st v m base rs => list_eqb Bool.eqb rs (sane_me_all st v m base)
